@@ -49,6 +49,23 @@ def main(argv):
     st = sx.explore(fn, params, budget=budget, path_timeout=path_timeout, known=known,
                     max_new=int(os.environ.get("VERIF_MAXNEW", "1")))
     out["main"] = st
+    # 2b. the solver could not decide some paths (code it cannot follow, e.g. text formatting of symbolic numbers) or ran out
+    # of budget before the tree was exhausted, and found nothing: probe the instance with deterministic pseudo-random CONCRETE draws.  A violation found this way is replayed like
+    # any other; finding none changes nothing (the instance stays inconclusive).
+    if (st["unknown"] or not st.get("exhausted")) and not st["violations"] and not st["known"]:
+        from .api import probe
+        seed = int(os.environ.get("VERIF_SEED", "0") or 0)
+        try:
+            found = probe(fn, params, seed=seed)
+        except Exception as e:
+            found = None
+            out["probe_error"] = repr(e)
+        out["probed"] = True
+        if found is not None:
+            fid = known(found["kind"], found["sig"]) if known else None
+            if fid is None:
+                st["violations"].append(found)
+                st["viol_paths"] += 1
 
     # 3. plain re-execution of sampled confirmed paths: functions driven + consistency
     try:
